@@ -110,7 +110,7 @@ def _sha512(unit):
     return j
 
 JOBS += [_sha512(u) for u in ("init", "update", "final")]
-for _j in JOBS[-3:]: _j["wip"] = True
+JOBS[-2]["wip"] = True   # sha512_update: until its 16 cases have been seen to pass on the unchanged tree
 
 SHA1_MAXLEN = 200
 def _sha1(unit):
